@@ -74,7 +74,7 @@ func newLifeComposite(w *vs.World, srv *vs.Server) vs.LifeAdapter {
 		revisionLister:    w.RevisionLister,
 		revisionInformer:  w.RevInformer,
 		parentControllers: make(map[string]*parentController),
-		numWorkers:        1,
+		numWorkers:        vs.LifeWorkers(),
 		ssaOptions:        &common.ApplyOptions{Strategy: common.ApplyStrategyDynamicApply},
 		logger:            logr.Discard(),
 	}
